@@ -22,8 +22,8 @@ use serde_json::{json, Value};
 pub struct Seed { pub id: String, pub target: &'static str, pub bytes: Vec<u8>, pub spans: Vec<cfkit::parse::Span>, pub grow: &'static str }
 
 /// Grown structures (fault model: GrowSizes): kind -> target parser.
-const GROW: &[(&str, &str)] = &[("condy_fanout", "class"), ("condy_uses", "class"), ("anno_array", "class"), ("anno_anno", "class"), ("ifc_args", "class"), ("method_args", "class"), ("labels", "class"),
-	("enigma_nest", "enigma"), ("tiny_nest", "tiny"), ("fdesc_dims", "fdesc"), ("mdesc_dims", "mdesc"), ("desc_args", "mdesc")];
+const GROW: &[(&str, &str)] = &[("condy_fanout", "class"), ("condy_uses", "class"), ("anno_array", "class"), ("anno_anno", "class"), ("ifc_args", "class"), ("ifc_baddesc", "class"), ("method_args", "class"), ("labels", "class"),
+	("enigma_nest", "enigma"), ("tiny_nest", "tiny"), ("tiny_unknown_nest", "tiny"), ("tinydiff_unknown_nest", "tinydiff"), ("fdesc_dims", "fdesc"), ("mdesc_dims", "mdesc"), ("desc_args", "mdesc")];
 
 const QUICK_SAMPLES: &[&str] = &["minimal_object", "exception_table", "switches", "frames_each_kind", "annotations_all_element_kinds", "type_annotations_code",
 	"indy_condy_unreferenced_bootstrap", "inner_classes", "local_variable_tables", "record", "module_info", "invokes", "wide_locals"];
@@ -269,6 +269,14 @@ pub fn grow(kind: &str, k: usize) -> Result<Vec<u8>> {
 			gclass(pool, "()V", &[0xb9, a, b, 1, 0, 0xb1], &[], (0, vec![]), (0, vec![]))
 		},
 		// the method itself declares k long parameters
+		// invokeinterface of a method whose descriptor is not one (the reader does not look into it, the writer needs its argument size)
+		"ifc_baddesc" => {
+			const BAD: [&str; 10] = ["(", "(I", "([", "(Lfoo;", "", "V", "()", "(I)", "(\u{e9}", "((I)V"];
+			let mut pool = GPool::new();
+			let m = pool.imethod("I", "x", BAD[k % BAD.len()]);
+			let [a, b] = m.to_be_bytes();
+			gclass(pool, "()V", &[0xb9, a, b, 1, 0, 0xb1], &[], (0, vec![]), (0, vec![]))
+		},
 		"method_args" => gclass(GPool::new(), &format!("({})V", "J".repeat(k)), &[0xb1], &[], (0, vec![]), (0, vec![])),
 		// a label at every bytecode offset of a method of maximal length
 		"labels" => {
@@ -291,6 +299,13 @@ pub fn grow(kind: &str, k: usize) -> Result<Vec<u8>> {
 			s.into_bytes()
 		},
 		// a Tiny v2 file whose lines step in by one tab each (comments below a class)
+		// a section of an unknown kind with k lines below it, each one tab deeper than the one before
+		"tiny_unknown_nest" | "tinydiff_unknown_nest" => {
+			let mut s = String::from(if kind == "tiny_unknown_nest" { "tiny\t2\t0\ta\tb\nc\tA\tx/A\n" } else { "tiny\t2\t0\nc\tA\tx/A\tx/B\n" });
+			s.push_str("\tzz\tunknown\n");
+			for i in 0..k { for _ in 0..i + 2 { s.push('\t'); } s.push_str("zz\tdeeper\n"); }
+			s.into_bytes()
+		},
 		"tiny_nest" => {
 			let mut s = String::from("tiny\t2\t0\ta\tb\nc\tA\tx/A\n");
 			for i in 0..k { for _ in 0..=i { s.push('\t'); } s.push_str("c\tcomment\n"); }
@@ -369,7 +384,16 @@ pub fn child_main() -> Result<()> {
 		let v: Value = serde_json::from_str(&line)?;
 		let r = match all.iter().find(|s| s.id == v["seed"].as_str().unwrap_or("")) {
 			None => json!({"out": "tool", "where": "unknown seed"}),
-			Some(seed) => match apply(seed, &v["ops"]) { Ok(b) => run_target(seed.target, &b), Err(e) => json!({"out": "tool", "where": e.to_string()}) },
+			// the parser runs on a thread with the default stack of a Rust thread (2 MiB; the binary's tokio workers have that too),
+			// not on the 8 MiB main thread: a recursion that survives there may not survive where the code is really called
+			Some(seed) => match apply(seed, &v["ops"]) {
+				Ok(b) => {
+					let target = seed.target;
+					std::thread::Builder::new().stack_size(2 << 20).spawn(move || run_target(target, &b))?.join()
+						.unwrap_or_else(|_| json!({"out": "panic", "where": "thread", "write": "-"}))
+				},
+				Err(e) => json!({"out": "tool", "where": e.to_string()}),
+			},
 		};
 		writeln!(out, "{}", r)?;
 		out.flush()?;
